@@ -510,6 +510,17 @@ pub fn check(ctx: &Ctx) {
         cfgs.push(base(enc, vec![EskSpec::Password(0), EskSpec::Password(1), EskSpec::Password(2)]));
         if !quick {
             cfgs.push(base(enc, vec![EskSpec::Key(keys[0], false), EskSpec::Key(keys[1], true), EskSpec::Key(keys[2], false)]));
+            // every ordered pair of recipient keys, and every key next to every password kind
+            for &a in keys {
+                for &b in keys {
+                    if a != b {
+                        cfgs.push(base(enc, vec![EskSpec::Key(a, false), EskSpec::Key(b, false)]));
+                    }
+                }
+                for s2k in 0..3u8 {
+                    cfgs.push(base(enc, vec![EskSpec::Password(s2k), EskSpec::Key(a, true)]));
+                }
+            }
         }
     }
     // SEIPDv2 to a v4 key (v6 PKESK for a v4 X25519 key)
@@ -532,7 +543,7 @@ pub fn check(ctx: &Ctx) {
         cands.push(Secret::DecoyPassword);
         cands.push(Secret::SessionKey);
         cands.push(Secret::WrongSessionKey(0));
-        let max = if quick { 2 } else { 3 };
+        let max = if quick { 2 } else { 4 };
         for sel in selections(&cands, max) {
             for entry in [Entry::RingAbortEarly, Entry::RingCheckAll] {
                 cases.push(Case {
@@ -618,7 +629,7 @@ pub fn check(ctx: &Ctx) {
     ctx.run_space(
         "recipient_sets_x_presented_secrets",
         true,
-        "messages to recipient sets (each public-key algorithm addressed/anonymous; passwords x 3 S2K kinds; mixed sets of 2-3; SEIPDv1 + v3 PKESK/v4 SKESK and SEIPDv2 + v6) x every ordered selection of up to 2 (thorough 3) presented secrets out of {recipient keys, an unrelated key of the same kind, recipient passwords, an unrelated password, the real session key, a wrong session key} x decrypt_the_ring abort_early on/off (+ the simple entry points for single secrets); locked recipient keys with no / wrong / right / wrong+right key password; wrong session keys of 4 shapes; a decoy key forged into the PKESK recipient field. Oracle (set arithmetic): a presented recipient secret => the plaintext; none => an error and no plaintext byte (SEIPDv2: at most a prefix); check-all with a wrong session key next to a good secret => an error.",
+        "messages to recipient sets (each public-key algorithm addressed/anonymous; passwords x 3 S2K kinds; mixed sets of 2-3, thorough: every ordered pair of recipient keys and every key next to every password kind; SEIPDv1 + v3 PKESK/v4 SKESK and SEIPDv2 + v6) x every ordered selection of up to 2 (thorough 4) presented secrets out of {recipient keys, an unrelated key of the same kind, recipient passwords, an unrelated password, the real session key, a wrong session key} x decrypt_the_ring abort_early on/off (+ the simple entry points for single secrets); locked recipient keys with no / wrong / right / wrong+right key password; wrong session keys of 4 shapes; a decoy key forged into the PKESK recipient field. Oracle (set arithmetic): a presented recipient secret => the plaintext; none => an error and no plaintext byte (SEIPDv2: at most a prefix); check-all with a wrong session key next to a good secret => an error.",
         cases.into_par_iter(),
         run,
     );
